@@ -90,6 +90,9 @@ func (ex *Exec) toGoDeep(st *State, v Value, t types.Type) interface{} {
 		}
 		return out
 	case MapRef:
+		if x.Obj != 0 {
+			ex.globalAccess(st, x.Obj, -1, false) // the encoder reads the map: visible to the happens-before pass
+		}
 		md := ex.mapData(st, x)
 		var kt, vt types.Type = emptyIface, emptyIface
 		if t != nil {
